@@ -899,4 +899,64 @@ def r_register_found(cx):
               "get_resource can go on to the next search directory (and end in NotFound) after it has found the tag of the "
               "register item: an item that is the last of its file and lacks the closing fence is not found any more",
               cx.where(f.term(fb)["span"]))
+    if n == 0:
+        # the register search lives in a helper of the module (`register_item(text, tag) -> Option<String>`): the same
+        # three clauses, read in the helper - a found tag never ends in a None result
+        for lp in f.loops():
+            if lp.parent is not None or "PathBuf" not in f.term(lp.header).get("callee_full", ""):
+                continue
+            for cb in sorted(lp.body):
+                ct = f.term(cb)
+                h = f.callee(ct) if ct["k"] == "call" else None
+                if not (h and h.startswith("context::plain::") and cx.f.has_fn(h)):
+                    continue
+                g = cx.f.fn(h)
+                finds = [bb for bb, t in g.calls() if (g.callee(t) or "").endswith("str>::find")]
+                first = [b for b in finds if all(b == o or g.dominates(b, o) for o in finds)]
+                if not first:
+                    continue
+                fb = first[0]
+                some = None
+                for b2 in sorted(g.reachable()):
+                    sw = g.term(b2)
+                    if sw["k"] != "switch":
+                        continue
+                    d = g.operand(sw["discr"], g.end_point(b2))
+                    src = mir.strip_refs(d[1]) if d[0] == "discr" else None
+                    if src is not None and src[0] == "call" and isinstance(src[1], str) and src[1].endswith("Try>::branch") and src[2]:
+                        src = mir.strip_refs(src[2][0])
+                    if src is not None and src[0] == "call" and src[3] == fb:
+                        tg = dict((v, x) for v, x in sw["targets"])
+                        some = tg.get(1, sw["otherwise"]) if (1 in tg or 0 in tg) else None
+                        if 0 in tg and 1 not in tg:
+                            some = sw["otherwise"]
+                        # for Try::branch the Continue side is variant 0
+                        d1 = mir.strip_refs(d[1])
+                        if d1[0] == "call" and isinstance(d1[1], str) and d1[1].endswith("Try>::branch"):
+                            some = tg.get(0, sw["otherwise"])
+                if some is None:
+                    continue
+                n += 1
+                reach = g.reach_from([some], avoid=[])
+                none_after = [bb for bb, i, st in g.all_stmts() if bb in reach and st["k"] == "assign" and st["place"]["l"] == 0 and
+                              st["rv"]["k"] == "agg" and st["rv"].get("vname") == "None"]
+                hay = g.arg_terms(fb)[0]
+                cleaned = []
+                mir.walk(hay, lambda y: (cleaned.append(1) if y[0] == "call" and isinstance(y[1], str) and y[1].endswith("::replace") and
+                                         len(y[2]) > 1 and mir.strip_refs(y[2][1])[0] == "const" and
+                                         isinstance(mir.strip_refs(y[2][1])[2], tuple) and "\r" in str(mir.strip_refs(y[2][1])[2][1]) else None) or True)
+                cx.ob("R-REGISTER-FOUND", "get_resource/line-ends-first", bool(cleaned),
+                      "the tag is looked for in the text with its line ends cleaned up" if cleaned else
+                      "%s looks for the tag of a register item in the raw file text: in a register with CR/LF line ends no item "
+                      "is found" % h, cx.where(g.term(fb)["span"]))
+                for ob_ in [b for b in sorted(reach) if b in finds and b != fb]:
+                    pat = mir.strip_refs(g.arg_terms(ob_)[1])
+                    if pat[0] == "const" and isinstance(pat[2], tuple) and pat[2][0] == "str" and "```" in pat[2][1]:
+                        cx.ob("R-REGISTER-FOUND", "get_resource/closing-fence", pat[2][1] == "```",
+                              "the end of an item is the bare closing fence" if pat[2][1] == "```" else
+                              "%s looks for the end of a register item as %r" % (h, pat[2][1]), cx.where(g.term(ob_)["span"]))
+                cx.ob("R-REGISTER-FOUND", "get_resource/tag-found", not none_after,
+                      "once the tag of a register item has been found, %s delivers the item" % h if not none_after else
+                      "%s can answer `no such item` after it has found the tag of the register item: an item that is the last of "
+                      "its file and lacks the closing fence is not found any more" % h, cx.where(g.term(fb)["span"]))
     cx.count("R-REGISTER-FOUND", "tag_searches", n)
